@@ -277,6 +277,18 @@ def _coef_real_surrogate(coef: Any):  # noqa: ANN202
     return _coef_real(coef)
 
 
+CALLER_REUSE = [0]
+
+
+def caller_goes_on_using(table: dict) -> None:
+    """The table of coefficients handed to the model is the caller's own object: it is overwritten and extended afterwards
+    (a builder that keeps one dict and edits it for the next reaction). The model's reaction is what was declared."""
+    for k in list(table):
+        table[k] = 12345.0
+    table["__entry_added_by_the_caller_afterwards"] = 1.0
+    CALLER_REUSE[0] += 1
+
+
 def add_component(model, c: dict) -> None:  # noqa: ANN001
     """Add one spec component to a real model through the public builder API."""
     import pandas as pd
@@ -297,12 +309,11 @@ def add_component(model, c: dict) -> None:  # noqa: ANN001
     elif kind == "derived":
         model.add_derived(c["name"], fn_of(c), args=list(c["args"]))
     elif kind == "reaction":
-        model.add_reaction(
-            c["name"],
-            fn_of(c),
-            args=list(c["args"]),
-            stoichiometry={k: _coef_real(v) for k, v in c["stoich"].items()},
-        )
+        st = {k: _coef_real(v) for k, v in c["stoich"].items()}
+        try:
+            model.add_reaction(c["name"], fn_of(c), args=list(c["args"]), stoichiometry=st)
+        finally:
+            caller_goes_on_using(st)
     elif kind == "readout":
         model.add_readout(c["name"], fn_of(c), args=list(c["args"]))
     elif kind == "surrogate":
